@@ -246,6 +246,7 @@ fn exec(spec: &ProgSpec, mode: u8, steps: u32, rec: &mut Rec, counting: bool) ->
             rec.class("run-frame", 1);
         }
         rec.class("steps-executed", st.steps as u64);
+        rec.sample(|| case_json(spec, mode, steps));
         if st.dispatch && st.suspended && st.multi {
             rec.nontrivial(fnv(format!("{}{:?}", mode, spec).as_bytes()));
         }
